@@ -187,8 +187,20 @@ pub struct Embedding {
 
 impl Embedding {
     pub fn x(&self, v: i64) -> f64 {
-        let x = self.a + self.b * (v as f64);
-        x
+        if self.name == "EM1" {
+            // mixed magnitudes (C17): a monotone, NON-affine map of the lattice -- only the sign and
+            // range conditions are checked under it, never a statistic's value
+            return match v {
+                i64::MIN..=-3 => -p2(497),
+                -2 => -p2(40),
+                -1 => -1.0,
+                0 => p2(-600),
+                1 => 1.0,
+                2 => 1.5,
+                _ => p2(496),
+            };
+        }
+        self.a + self.b * (v as f64)
     }
 }
 
@@ -219,6 +231,7 @@ pub fn embedding(name: &str) -> Embedding {
         // near the top of the f64 range (values up to 3 * 2^1022 = 1.3e308): sums of two
         // observations overflow, the observations themselves do not (small-sample quantile, C07/C15)
         "E11" => Embedding { name: "E11", a: 0.0, b: p2(1022) },
+        "EM1" => Embedding { name: "EM1", a: 0.0, b: 1.0 },
         _ => panic!("unknown embedding {name}"),
     }
 }
